@@ -1,14 +1,18 @@
 PROPERTY = "C18"
 ENCODED = ["linux::sections::memory_info_list_stream::get_memory_protection", "linux::auxv: From<DirectAuxvDumpInfo> for AuxvDumpInfo, AuxvDumpInfo::is_complete",
-           "MinidumpWriter::write_file", "linux::dso_debug::write_dso_debug_stream (record emission)"]
-BOUNDS = {"protection table": "all 32 permission values", "direct auxv": "all four values fully symbolic", "file copy": "8 symbolic bytes", "linker stream": "a complete 2-object chain: symbolic r_debug fields, load addresses, l_ld, l_name; names 'ab' and none; 2-entry dynamic section"}
-OUTSIDE = ["equality with the kernel's /proc files (cmdline, environ, auxv, limits, maps, status, cpuinfo): std::fs::read is a stub", "MemoryInfoList and HandleData writers: they obtain their records through file I/O "
-           "(MemoryMaps::from_file - a default trait method Kani cannot stub, read_dir/read_link/stat) and are not executed; their layout rests on C16's alloc_with_val/alloc_from_iter laws",
+           "MinidumpWriter::write_file", "sections::memory_info_list_stream::write", "sections::systeminfo_stream::write + dumper_cpu_info::write_cpu_information (failure paths)", "linux::dso_debug::write_dso_debug_stream (record emission)"]
+BOUNDS = {"protection table": "all 32 permission values", "direct auxv": "all four values fully symbolic", "file copy": "8 symbolic bytes", "memory-info list": "1-2 memory-map lines (3 in the thorough tier) with symbolic ranges (ascending, up to 2^40 bytes each) and all 32 permission values", "system info": "/proc/cpuinfo unreadable or empty; uname scripted", "linker stream": "a complete 2-object chain: symbolic r_debug fields, load addresses, l_ld, l_name; names 'ab' and none; 2-entry dynamic section"}
+OUTSIDE = ["equality with the kernel's /proc files (cmdline, environ, auxv, limits, maps, status, cpuinfo): std::fs::read is a stub", "the HandleData writer: it obtains its records through read_dir/read_link/stat and is not executed; its layout rests on C16's alloc_with_val/alloc_from_iter laws", "parsing of /proc/<pid>/maps for the memory-info list (MemoryMaps::from_file is replaced by scripted lines)", "CPU family/model/stepping/vendor/count (the success path of the /proc/cpuinfo parser)", "the linker debug stream records for two objects: c18_dso_two_objects (thorough) does not finish in 3400 s",
            "uname / /proc/cpuinfo parsing (inline BufReader<File> loop)", "filling missing auxv values from /proc/<pid>/auxv ('the kernel's otherwise')", "more than 2 loaded objects; names longer than 2 bytes"]
 ASSUMPTIONS = ["std::fs::read stubbed to return 8 arbitrary bytes", "copy_from_process replaced by a scripted target memory for the linker chain", "std::fmt::format stubbed; Vec::resize memset model"]
 HARNESSES = [
     H("c18_streams::c18_memory_protection_table", desc="permission -> protection table, all 32 values"),
     H("c18_streams::c18_direct_auxv_precedence", desc="caller-supplied auxv values: 0 = unset, others kept; completeness"),
     H("c18_streams::c18_write_file_is_a_byte_copy", desc="raw stream == bytes returned by the file read", loops={"extend_with": 20}),
+    H("c18_streams::c18_memory_info_list_1", desc="memory-info list for 1 memory-map line: range, protection, private/shared, counts", loops={"MINIDUMP_MEMORY_INFO": 60, "alloc_from_iter": 6}, timeout=900, est_gb=5),
+    H("c18_streams::c18_memory_info_list_2", desc="memory-info list for 2 lines", loops={"MINIDUMP_MEMORY_INFO": 60, "alloc_from_iter": 6}, timeout=900, est_gb=5),
+    H("c18_streams::c18_memory_info_list_3", desc="memory-info list for 3 lines", loops={"MINIDUMP_MEMORY_INFO": 60, "alloc_from_iter": 6}, timeout=1500, est_gb=8, tier="thorough"),
+    H("c18_streams::c11_systeminfo_cpuinfo_unreadable", desc="system info names the platform (Linux), the CPU architecture (AMD64) and the OS version string even when /proc/cpuinfo cannot be read", timeout=900, est_gb=4, loops={"CPU_INFORMATION": 30}),
+    H("c18_streams::c11_systeminfo_cpuinfo_empty", desc="the same with an empty /proc/cpuinfo", timeout=900, est_gb=4, loops={"CPU_INFORMATION": 30}),
     H("c02_dso_debug::c18_dso_two_objects", desc="linker debug stream for a 2-object chain mirrors target memory", timeout=3400, est_gb=12, mem_gb=30, loops={"extend_with": 60, "position": 260}, tier="thorough", fs_array=4096),
 ]
